@@ -80,7 +80,11 @@ Shown(x) == OptLevel = 0 \/ x \notin {"none", "other"}
 \* frames other than k that run the same function (recursion, or the same function further out)
 OtherActs(e, k, pc) == {k2 \in 0..(Len(e.chain) - 1) : k2 # k /\ FnAt(Blocks, e.chain[k2 + 1]) = FnAt(Blocks, pc)}
 
+\* the value named by a location-list entry that ENDS at pc (ranges are half-open: that entry is over)
+StaleVals(e, k, v, pc) == {RawVal(e, k, v, n) : n \in {n \in 1..Len(Vars[v].locs) : Vars[v].locs[n].hi = pc}} \ {"unk"}
+
 ValueClass(e, k, pc, cands, x) ==
+  IF \E v \in cands : x \in StaleVals(e, k, v, pc) THEN "location_list_end_inclusive" ELSE
   \* frame k > 0 read with the registers of frame k+1: the slot offset applied to the caller's frame base
   IF k > 0 /\ \E v \in cands : LocAt(v, pc) # 0 /\ x \in UpVals(e, k, v, LocAt(v, pc)) THEN "value_from_callers_frame_base"
   ELSE IF \E v \in cands : \E k2 \in OtherActs(e, k, pc) : x \in RawSet(e, k2, v) THEN "wrong_frame_value"
@@ -177,7 +181,7 @@ Bump(e) ==
                    !.shadow = @ + (IF \E u, v \in S : u # v /\ Vars[u].name = Vars[v].name /\ Vars[u].kind = "local" /\ Vars[v].kind = "local" THEN 1 ELSE 0),
                    !.names  = @ + Cardinality(S),
                    !.values = @ + Cardinality(known),
-                   !.regvals = @ + Cardinality({v \in known : Vars[v].locs[LocAt(v, pc)].form \in {"reg", "regval", "breg"}}),
+                   !.regvals = @ + Cardinality({v \in known : Vars[v].locs[LocAt(v, pc)].form \in {"reg", "regval", "breg", "expr"}}),
                    !.recur  = @ + (IF OtherActs(e, e.fr, pc) # {} THEN 1 ELSE 0)]
 
 Consume ==
